@@ -444,9 +444,19 @@ def check_C06(ctx, unit):
             problems.append("expected one comparator call, found %d" % len(cmp_calls))
         else:
             c = cmp_calls[0]
-            a = [_ids(canon(x)) for x in c.args[1:]]
-            if a != ["(* node)", "(* current)"]:
-                problems.append("comparator called with %s" % a)
+            a = [std_unwrap(x) for x in c.args[1:]]
+            newp = g.params()[0]["d"]
+            def deref_of(x):
+                x = std_unwrap(x)
+                if x.kind == "UnaryOperator" and x.op == "*":
+                    y = std_unwrap(x.children[0])
+                    return y.d["d"] if y.kind == "DeclRefExpr" else None
+                return None
+            cursor = {std_unwrap(n.children[0]).d["d"] for n in g.events() if n.kind == "BinaryOperator" and n.op == "="
+                      and std_unwrap(n.children[0]).kind == "DeclRefExpr" and std_unwrap(n.children[1]).is_call()
+                      and std_unwrap(n.children[1]).callee and std_unwrap(n.children[1]).callee["n"] in ("get_left", "get_right")}
+            if not (len(a) == 2 and deref_of(a[0]) == newp and deref_of(a[1]) in cursor):
+                problems.append("comparator called with %s, expected (new element, current node)" % [_ids(canon(x)) for x in a])
             for n in g.events():
                 if n.is_call() and n.callee and n.callee["n"] in ("insert_left", "insert_right", "get_left", "get_right") and \
                         g.parent(n) is not None:
@@ -478,21 +488,27 @@ def check_C06(ctx, unit):
                 a0 = _ids(canon(n.args[0])) if n.args else ""
                 if isnull is True and nm == "insert_left":
                     problems.append("before == null path inserts to the left at %s" % n.loc)
-                if isnull is False and nm == "insert_left" and a0 != "before":
+                a0n = std_unwrap(n.args[0]) if n.args else None
+                if isnull is False and nm == "insert_left" and not (a0n is not None and a0n.kind == "DeclRefExpr" and a0n.d["d"] == bp):
                     problems.append("insert_left(%s, ...) on the before != null path" % a0)
                 if isnull is False and nm == "insert_root":
                     problems.append("insert_root on the before != null path")
-        starts = [_ids(canon(i)) for d, i in RA.local_inits(g).items()]
-        if "frg::_redblack::tree_crtp_struct::get_left(before)" not in starts:
-            problems.append("the before != null path does not start at get_left(before): %s" % starts)
+        starts = [std_unwrap(i) for d, i in RA.local_inits(g).items()]
+        if not any(x.is_call() and x.callee and x.callee["n"] == "get_left" and x.args and std_unwrap(x.args[0]).kind == "DeclRefExpr"
+                   and std_unwrap(x.args[0]).d["d"] == bp for x in starts):
+            problems.append("the before != null path does not start at get_left(before)")
         ctx.inst("E.rb-descent", "frg::_redblack::tree_order_struct::insert", not problems, g.loc,
                  "; ".join(problems) if problems else "null -> right-most; else left child of `before` or right-most of its left subtree", g)
     # loops
     from .rules_parse import check_loop_progress
     for g in [f("first")] + ts[:1] + to[:1]:
-        check_loop_progress(ctx, "R.rb-loops", g, lambda n: n.kind == "BinaryOperator" and n.op == "=" and
-                            _ids(canon(n.children[0])) == "current" and ("get_left(current)" in _ids(canon(n.children[1])) or
-                                                                          "get_right(current)" in _ids(canon(n.children[1]))))
+        def _desc(n):
+            if not (n.kind == "BinaryOperator" and n.op == "="):
+                return False
+            l, r = std_unwrap(n.children[0]), std_unwrap(n.children[1])
+            return l.kind == "DeclRefExpr" and r.is_call() and r.callee is not None and r.callee["n"] in ("get_left", "get_right") \
+                and bool(r.args) and std_unwrap(r.args[0]).kind == "DeclRefExpr" and std_unwrap(r.args[0]).d["d"] == l.d["d"]
+        check_loop_progress(ctx, "R.rb-loops", g, _desc)
 
 
 # ---- C07 ------------------------------------------------------------------------------------------------
@@ -540,7 +556,8 @@ def check_C07(ctx, unit, thorough=False):
     ser = Ser(g)
     body = g.node(g.d["body"])
     ifs = [n for n in body.walk() if n.kind == "IfStmt" and not is_assert_stmt(n)]
-    cbs = [n for n in g.events() if n.kind == "CXXOperatorCallExpr" and n.args and _ids(canon(n.args[0])) == "fn"]
+    cbs = [n for n in g.events() if n.kind == "CXXOperatorCallExpr" and n.args and std_unwrap(n.args[0]).kind == "DeclRefExpr"
+           and std_unwrap(n.args[0]).d["d"] == g.params()[0]["d"]]
     if len(cbs) != 1:
         raise AnalysisBroken("anchor vanished: callback invocation in _for_overlaps_in_subtree (found %d)" % len(cbs))
     cb = cbs[0]
@@ -554,7 +571,11 @@ def check_C07(ctx, unit, thorough=False):
     if ov is None or len(pr) != 1:
         raise AnalysisBroken("anchor vanished: overlap test / pruning guard")
     ovc, prc = ov.child("cond"), pr[0].child("cond")
-    LO, HI = "lower(node)", "upper(node)"
+    gp = g.params()
+    if len(gp) != 4:
+        raise AnalysisBroken("anchor vanished: _for_overlaps_in_subtree(fn, lb, ub, node) signature")
+    LBN, UBN, NODE = gp[1]["n"], gp[2]["n"], gp[3]["n"]
+    LO, HI = "lower(%s)" % NODE, "upper(%s)" % NODE
     atoms = set()
 
     def spec(lo, hi, lb, ub):
@@ -566,7 +587,7 @@ def check_C07(ctx, unit, thorough=False):
             if lo > hi or lb > ub:
                 continue
             cnt += 1
-            v = {LO: lo, HI: hi, "lb": lb, "ub": ub}
+            v = {LO: lo, HI: hi, LBN: lb, UBN: ub}
             got = bool_eval(ovc, lambda a: v.get(a), ser)
             if got != spec(lo, hi, lb, ub):
                 bad = "lo=%d hi=%d lb=%d ub=%d: test gives %s, overlap is %s" % (lo, hi, lb, ub, got, spec(lo, hi, lb, ub))
@@ -577,10 +598,10 @@ def check_C07(ctx, unit, thorough=False):
              bad or "%d order-type representatives, expression %s" % (cnt, ser.expr(ovc)), g)
     ctx.cross.append({"rule": "Q.overlap-predicate", "exhaustive": True, "cases": cnt})
     # pruning guard: atoms left (non-null), lb, h(left).subtree_max
-    M = "h(get_left(node)).subtree_max"
+    M = "h(get_left(%s)).subtree_max" % NODE
 
     def guard(lb, m, ub=None):
-        v = {"get_left(node)": 1, "lb": lb, "ub": ub, M: m}
+        v = {"get_left(%s)" % NODE: 1, LBN: lb, UBN: ub, M: m}
         return bool_eval(prc, lambda a: v.get(a), ser)
     bad = None
     cnt = 0
@@ -591,7 +612,7 @@ def check_C07(ctx, unit, thorough=False):
                 continue
             cnt += 1
             if not guard(lb, m, ub):
-                v = {LO: lo, HI: hi, "lb": lb, "ub": ub}
+                v = {LO: lo, HI: hi, LBN: lb, UBN: ub}
                 if bool_eval(ovc, lambda a: v.get(a), ser) or spec(lo, hi, lb, ub):
                     bad = "guard false with subtree_max=%d but [%d,%d] overlaps [%d,%d]" % (m, lo, hi, lb, ub)
                     break
@@ -607,7 +628,7 @@ def check_C07(ctx, unit, thorough=False):
             continue
         cnt += 1
         if guard(lb, hi1, ub):
-            v1 = {LO: lo1, HI: hi1, "lb": lb, "ub": ub}
+            v1 = {LO: lo1, HI: hi1, LBN: lb, UBN: ub}
             if not bool_eval(ovc, lambda a: v1.get(a), ser):
                 if spec(lo2, hi2, lb, ub):
                     bad = "left witness [%d,%d] (max) misses [%d,%d] yet right node [%d,%d] overlaps" % (lo1, hi1, lb, ub, lo2, hi2)
@@ -620,8 +641,8 @@ def check_C07(ctx, unit, thorough=False):
     def inside(n, region):
         return region is not None and any(x.id == n.id for x in region.walk())
     recs = [n for n in g.all_nodes() if n.is_call() and n.callee and n.callee["did"] == g.did]
-    rec_left = [n for n in recs if ser.expr(n.args[-1]) == "get_left(node)"]
-    rec_right = [n for n in recs if ser.expr(n.args[-1]) == "get_right(node)"]
+    rec_left = [n for n in recs if ser.expr(n.args[-1]) == "get_left(%s)" % NODE]
+    rec_right = [n for n in recs if ser.expr(n.args[-1]) == "get_right(%s)" % NODE]
     if len(recs) != 5 or len(rec_left) != 2 or len(rec_right) != 3:
         problems.append("recursive calls: %d (left %d, right %d), expected 5 (2, 3)" % (len(recs), len(rec_left), len(rec_right)))
     hit_arm, guard_arm, other_arm = ov.child("then"), pr[0].child("then"), (pr[0].child("else") if pr[0].get("else") is not None else None)
@@ -645,7 +666,7 @@ def check_C07(ctx, unit, thorough=False):
         if inside(n, hit_arm):
             continue
         if inside(n, guard_arm):
-            lh = [h for h in hit_ifs if inside(h, guard_arm) and ser.expr(std_unwrap(h.child("cond")).args[-1]) == "get_left(node)"]
+            lh = [h for h in hit_ifs if inside(h, guard_arm) and ser.expr(std_unwrap(h.child("cond")).args[-1]) == "get_left(%s)" % NODE]
             if not any(inside(n, h.child("then")) for h in lh):
                 problems.append("right subtree searched at %s although the left search did not report a hit" % n.loc)
         elif not inside(n, other_arm):
@@ -715,10 +736,11 @@ def check_C07(ctx, unit, thorough=False):
     for f in ag[:1]:
         sr = Ser(f, sound=True)
         body = f.node(f.d["body"])
-        ifs2 = [n for n in body.walk() if n.kind == "IfStmt" and "subtree_max" in sr.expr(n.child("cond")) and "new_max" in sr.stmt(n.child("then"))]
+        ifs2 = [n for n in body.walk() if n.kind == "IfStmt" and "subtree_max" in sr.expr(n.child("cond")) and
+                re.search(r"get_(left|right)\(", sr.expr(n.child("cond")))]
         okm = len(ifs2) == 2 and mirror(sr.stmt(ifs2[0]), [("get_left", "get_right")]) == sr.stmt(ifs2[1])
         init = [sr.expr(i) for d, i in RA.local_inits(f).items() if RA._reassigned(f, d)]
-        oki = "upper(node)" in init
+        oki = any(x.startswith("upper(") for x in init)
         ctx.inst("M.aggregator", IT + "::aggregator::aggregate", okm and oki, f.loc,
                  "left/right statements mirror: %s; starts from upper(node): %s" % (okm, oki), f)
     ins = [f for f in unit.functions if f.owner_cls == IT and f.name == "insert"]
@@ -732,7 +754,8 @@ def check_C07(ctx, unit, thorough=False):
     for f in lb[:1]:
         rs = f.return_nodes()
         e = Ser(f).expr(rs[0].child("val")) if rs else ""
-        ok = e == "(< lower((& x)) lower((& y)))"
+        pn = [p["n"] for p in f.params()]
+        ok = len(pn) == 2 and e == "(< lower((& %s)) lower((& %s)))" % (pn[0], pn[1])
         ctx.inst("M.aggregator", IT + "::lb_less", ok, f.loc, "orders by %s" % e, f)
 
 
@@ -839,8 +862,7 @@ def check_C08(ctx, unit):
              "(a link must be saved before it is cleared)", 3)
     check_read_after_clear(ctx, "H.read-after-clear", [x for name in ("_collapse", "pop", "remove", "_merge") for x in fns[name]])
     from .rules_parse import check_loop_progress
-    check_loop_progress(ctx, "R.heap-loops", f, lambda n: n.kind == "BinaryOperator" and n.op == "=" and
-                        _ids(canon(n.children[0])) in ("element", "paired"))
+    check_loop_progress(ctx, "R.heap-loops", f, None)
     f = fns["empty"][0]
     e = Ser(f).expr(f.return_nodes()[0].child("val"))
     ctx.inst("P.heap-accessors", PH + "::empty", e in ("(== this._root null)", "(! this._root)"), f.loc, "returns %s" % e, f)
